@@ -70,14 +70,11 @@ func Ceiling(ctx *expr.Context, input system.Collection, args ...expr.Expression
 	if len(args) != 0 {
 		return nil, fmt.Errorf("%w: received %v arguments, expected 0", ErrWrongArity, len(args))
 	}
-	// Input type conversion to float64
-	number, err := input.ToFloat64()
+	number, err := exactDecimal(input)
 	if err != nil {
 		return nil, err
 	}
-	// Ceiling number
-	result := math.Ceil(number)
-	return system.Collection{system.Integer(result)}, nil
+	return integerOrEmpty(number.Ceil()), nil
 }
 
 // Exp returns e raised to the power of the input.
@@ -113,14 +110,11 @@ func Floor(ctx *expr.Context, input system.Collection, args ...expr.Expression) 
 	if len(args) != 0 {
 		return nil, fmt.Errorf("%w: received %v arguments, expected 0", ErrWrongArity, len(args))
 	}
-	// Input type conversion to float64
-	number, err := input.ToFloat64()
+	number, err := exactDecimal(input)
 	if err != nil {
 		return nil, err
 	}
-	// Flooring number
-	result := math.Floor(number)
-	return system.Collection{system.Integer(result)}, nil
+	return integerOrEmpty(number.Floor()), nil
 }
 
 // Ln returns the natural logarithm of the input number.
@@ -328,14 +322,39 @@ func Truncate(ctx *expr.Context, input system.Collection, args ...expr.Expressio
 	if len(args) != 0 {
 		return nil, fmt.Errorf("%w: received %v arguments, expected 0", ErrWrongArity, len(args))
 	}
-	// Input type conversion to float64
-	number, err := input.ToFloat64()
+	number, err := exactDecimal(input)
 	if err != nil {
 		return nil, err
 	}
-	// Ceiling number
-	result := math.Trunc(number)
-	return system.Collection{system.Integer(result)}, nil
+	return integerOrEmpty(number.Truncate(0)), nil
+}
+
+// exactDecimal returns the singleton numeric input as an exact decimal. It accepts
+// the same inputs as Collection.ToFloat64, without the precision loss of float64.
+func exactDecimal(input system.Collection) (decimal.Decimal, error) {
+	if _, err := input.ToFloat64(); err != nil {
+		return decimal.Decimal{}, err
+	}
+	value, err := system.From(input[0])
+	if err != nil {
+		return decimal.Decimal{}, err
+	}
+	switch v := value.(type) {
+	case system.Integer:
+		return decimal.NewFromInt32(int32(v)), nil
+	case system.Decimal:
+		return decimal.Decimal(v), nil
+	}
+	return decimal.Decimal{}, fmt.Errorf("%w: input is not a number", ErrInvalidInput)
+}
+
+// integerOrEmpty converts an integral decimal to an Integer, or to an empty
+// collection if it does not fit in 32 bits.
+func integerOrEmpty(d decimal.Decimal) system.Collection {
+	if d.LessThan(decimal.NewFromInt(math.MinInt32)) || d.GreaterThan(decimal.NewFromInt(math.MaxInt32)) {
+		return system.Collection{}
+	}
+	return system.Collection{system.Integer(int32(d.IntPart()))}
 }
 
 func logToBase(number, base float64) float64 {
